@@ -152,7 +152,7 @@ fn run_one(prop: &str, sk: &ledger::Skeleton, out: &mut Out) {
         "leaves": s.leaves.load(SeqCst), "forks": s.forks.load(SeqCst), "checks": s.checks.load(SeqCst),
         "solver_us": s.solver_us.load(SeqCst), "decisions": s.decisions.load(SeqCst),
         "unknown_branch": s.unknown_branch.load(SeqCst), "proves": s.proves.load(SeqCst),
-        "prove_us": s.prove_us.load(SeqCst), "capped": s.capped.load(SeqCst), "child_fail": s.child_fail.load(SeqCst),
+        "prove_us": s.prove_us.load(SeqCst), "capped": s.capped.load(SeqCst), "child_fail": s.child_fail.load(SeqCst), "watchdog": s.watchdog.load(SeqCst),
         "wall_ms": t0.elapsed().as_millis() as u64,
     }));
 }
